@@ -25,12 +25,15 @@ use super::Error;
 use crate::Runtime;
 use crate::expansion::AssignReadOnlyError;
 use crate::expansion::expand_text;
+use std::cell::OnceCell;
 use std::ops::Range;
 use std::rc::Rc;
 use yash_arith::Config;
 use yash_arith::eval_with_config;
 use yash_env::option::Option::{Portable, Unset};
 use yash_env::option::State::{Off, On};
+use yash_env::variable::Expansion;
+use yash_env::variable::Quirk;
 use yash_env::variable::Scope::Global;
 use yash_syntax::source::Code;
 use yash_syntax::source::Location;
@@ -267,6 +270,42 @@ impl<S> yash_arith::Env for VarEnv<'_, S> {
     }
 }
 
+/// Wrapper of [`VarEnv`] that applies [quirks](Quirk) when reading variables
+///
+/// The value of a variable that has a quirk (`$LINENO`) is computed on
+/// expansion rather than stored in the variable, so it is kept here for the
+/// duration of the evaluation.
+struct QuirkVarEnv<'a, S> {
+    inner: VarEnv<'a, S>,
+    line_number: OnceCell<String>,
+}
+
+impl<S> yash_arith::Env for QuirkVarEnv<'_, S> {
+    type GetVariableError = UnsetVariable;
+    type AssignVariableError = AssignReadOnlyError;
+
+    fn get_variable(&self, name: &str) -> Result<Option<&str>, UnsetVariable> {
+        if let Some(var) = self.inner.env.variables.get(name) {
+            if let Some(Quirk::LineNumber) = var.quirk {
+                if let Expansion::Scalar(value) = var.expand(self.inner.expansion_location) {
+                    let value = self.line_number.get_or_init(|| value.into_owned());
+                    return Ok(Some(value));
+                }
+            }
+        }
+        self.inner.get_variable(name)
+    }
+
+    fn assign_variable(
+        &mut self,
+        name: &str,
+        value: String,
+        range: Range<usize>,
+    ) -> Result<(), AssignReadOnlyError> {
+        self.inner.assign_variable(name, value, range)
+    }
+}
+
 pub async fn expand<S: Runtime + 'static>(
     text: &Text,
     location: &Location,
@@ -281,10 +320,13 @@ pub async fn expand<S: Runtime + 'static>(
     config.portable = env.inner.options.get(Portable) == On;
     let result = eval_with_config(
         &expression,
-        &mut VarEnv {
-            env: env.inner,
-            expression: &expression,
-            expansion_location: location,
+        &mut QuirkVarEnv {
+            inner: VarEnv {
+                env: env.inner,
+                expression: &expression,
+                expansion_location: location,
+            },
+            line_number: OnceCell::new(),
         },
         config,
     );
